@@ -19,7 +19,8 @@ Theorem C20_args_reset_is_fresh : forall dirty : args,
 Proof. exact args_reset_abs. Qed.
 Print Assumptions C20_args_reset_is_fresh.
 
-(* socket.message (PutMessage -> Reset): every getter and everything Pack reads *)
+(* socket.message (PutMessage -> Reset): every getter and everything Pack reads; the call
+   sequences below include MPack = rawProto.Pack, whose result is the transmitted frame *)
 Theorem C20_message_reset_is_fresh : forall dirty : message,
   abs_msg (msg_reset dirty) = abs_msg msg_fresh.
 Proof. exact msg_reset_abs. Qed.
@@ -50,20 +51,20 @@ Theorem C20_args_ops_commute_with_abs : forall g g' ops (a1 a2 : args),
 Proof. exact args_run_sim. Qed.
 Print Assumptions C20_args_ops_commute_with_abs.
 
-Theorem C20_message_ops_commute_with_abs : forall g g' registered size_limit ops (m1 m2 : message),
+Theorem C20_message_ops_commute_with_abs : forall g g' registered size_limit filter_pack ops (m1 m2 : message),
   abs_msg m1 = abs_msg m2 ->
-  rrel msg_rel (run (msg_step g registered size_limit) m1 ops)
-               (run (msg_step g' registered size_limit) m2 ops).
+  rrel msg_rel (run (msg_step g registered size_limit filter_pack) m1 ops)
+               (run (msg_step g' registered size_limit filter_pack) m2 ops).
 Proof. exact msg_run_sim. Qed.
 Print Assumptions C20_message_ops_commute_with_abs.
 
 (* handlerCtx.start is the one field clean() does not assign; it is only an operand of
    recordCost.  [start_ok set ops]: every CRecordCost in ops comes after a CSetStart
    (binding / Push / send assign start before anything computes a cost). *)
-Theorem C20_ctx_ops_commute_with_abs : forall g g' registered size_limit ops set (c1 c2 : hctx),
+Theorem C20_ctx_ops_commute_with_abs : forall g g' registered size_limit filter_pack ops set (c1 c2 : hctx),
   abs_ctx c1 = abs_ctx c2 -> (set = true -> c_start c1 = c_start c2) -> start_ok set ops = true ->
-  rrel ctx_rel (run (ctx_step g registered size_limit) c1 ops)
-               (run (ctx_step g' registered size_limit) c2 ops).
+  rrel ctx_rel (run (ctx_step g registered size_limit filter_pack) c1 ops)
+               (run (ctx_step g' registered size_limit filter_pack) c2 ops).
 Proof. exact ctx_run_sim. Qed.
 Print Assumptions C20_ctx_ops_commute_with_abs.
 
@@ -75,16 +76,16 @@ Theorem C20_args_recycled_like_fresh : forall g g' (dirty : args) ops,
 Proof. exact args_recycled. Qed.
 Print Assumptions C20_args_recycled_like_fresh.
 
-Theorem C20_message_recycled_like_fresh : forall g g' registered size_limit (dirty : message) ops,
-  rrel msg_rel (run (msg_step g registered size_limit) (msg_reset dirty) ops)
-               (run (msg_step g' registered size_limit) msg_fresh ops).
+Theorem C20_message_recycled_like_fresh : forall g g' registered size_limit filter_pack (dirty : message) ops,
+  rrel msg_rel (run (msg_step g registered size_limit filter_pack) (msg_reset dirty) ops)
+               (run (msg_step g' registered size_limit filter_pack) msg_fresh ops).
 Proof. exact msg_recycled. Qed.
 Print Assumptions C20_message_recycled_like_fresh.
 
-Theorem C20_ctx_recycled_like_fresh : forall g g' registered size_limit (dirty : hctx) sess sw ops,
+Theorem C20_ctx_recycled_like_fresh : forall g g' registered size_limit filter_pack (dirty : hctx) sess sw ops,
   start_ok false ops = true ->
-  rrel ctx_rel (run (ctx_step g registered size_limit) (ctx_get dirty sess sw) ops)
-               (run (ctx_step g' registered size_limit) (ctx_get ctx_new sess sw) ops).
+  rrel ctx_rel (run (ctx_step g registered size_limit filter_pack) (ctx_get dirty sess sw) ops)
+               (run (ctx_step g' registered size_limit filter_pack) (ctx_get ctx_new sess sw) ops).
 Proof. exact ctx_recycled. Qed.
 Print Assumptions C20_ctx_recycled_like_fresh.
 
@@ -124,8 +125,8 @@ Print Assumptions C20_bytebuffer_raw_changelen_exposes_stale.
    taken from the previous user's start. *)
 Theorem C20_ctx_cost_needs_start :
   exists dirty sess sw,
-    rmap snd (run (ctx_step g0 (fun _ => true) 1000%N) (ctx_get dirty sess sw) [CRecordCost 10%Z; CObserve])
-    <> rmap snd (run (ctx_step g0 (fun _ => true) 1000%N) (ctx_get ctx_new sess sw) [CRecordCost 10%Z; CObserve]).
+    rmap snd (run (ctx_step g0 (fun _ => true) 1000%N (fun _ d => Some d)) (ctx_get dirty sess sw) [CRecordCost 10%Z; CObserve])
+    <> rmap snd (run (ctx_step g0 (fun _ => true) 1000%N (fun _ d => Some d)) (ctx_get ctx_new sess sw) [CRecordCost 10%Z; CObserve]).
 Proof. exact ctx_cost_witness. Qed.
 Print Assumptions C20_ctx_cost_needs_start.
 
